@@ -36,6 +36,10 @@ struct Case {
     /// None = must be refused
     expect: Option<(String, u16)>,
     label: String,
+    /// 0 = the application waits for every reply; 1 = its first tunnel bytes travel in the same segment as the last
+    /// phase of the handshake (a client that does not wait for the final reply); 2 = all phases and the first tunnel
+    /// bytes in one segment
+    early: u8,
 }
 
 struct Outcome {
@@ -54,7 +58,42 @@ async fn run_case(c: &Case) -> Result<Outcome, String> {
         let Ok(mut s) = tokio::net::TcpStream::connect(addr).await else { return replies };
         let _ = s.set_nodelay(true);
         let mut buf = vec![0u8; 2048];
+        if cc.early == 2 {
+            let all = [cc.phases.concat(), cc.payload.clone()].concat();
+            if s.write_all(&all).await.is_err() {
+                return replies;
+            }
+            // collect whatever comes back (the replies of all phases may arrive in one or several reads)
+            let mut got = Vec::new();
+            while let Ok(Ok(n)) = tokio::time::timeout(Duration::from_millis(400), s.read(&mut buf)).await {
+                if n == 0 {
+                    break;
+                }
+                got.extend_from_slice(&buf[..n]);
+            }
+            if matches!(cc.kind, Kind::Socks5) && got.len() >= 2 {
+                replies.push(got[..2].to_vec());
+                replies.push(got[2..].to_vec());
+            } else if !got.is_empty() {
+                replies.push(got);
+            }
+            return replies;
+        }
         for (k, phase) in cc.phases.iter().enumerate() {
+            let last = k + 1 == cc.phases.len();
+            if cc.early == 1 && last {
+                let both = [phase.clone(), cc.payload.clone()].concat();
+                if s.write_all(&both).await.is_err() {
+                    return replies;
+                }
+                if let Ok(Ok(n)) = tokio::time::timeout(Duration::from_millis(1500), s.read(&mut buf)).await {
+                    if n > 0 {
+                        replies.push(buf[..n].to_vec());
+                    }
+                }
+                tokio::time::sleep(Duration::from_millis(400)).await;
+                return replies;
+            }
             if k == cc.cut_phase && !cc.cuts.is_empty() {
                 let mut start = 0;
                 for cut in cc.cuts.iter().chain(std::iter::once(&phase.len())) {
@@ -105,7 +144,7 @@ async fn run_case(c: &Case) -> Result<Outcome, String> {
 
 fn judge(rep: &mut Report, c: &Case, o: Outcome, seed: u64, idx: u64) {
     let kind = format!("{:?}", c.kind);
-    let seg = if c.cuts.is_empty() { "whole" } else if c.cuts.len() == 1 { "one-cut" } else { "many-cuts" };
+    let seg = if c.early == 1 { "early-data" } else if c.early == 2 { "all-in-one-segment" } else if c.cuts.is_empty() { "whole" } else if c.cuts.len() == 1 { "one-cut" } else { "many-cuts" };
     let w = |extra: serde_json::Value| json!({"seed": seed, "index": idx, "label": c.label, "request": c.phases.iter().map(|p| String::from_utf8_lossy(p).chars().take(160).collect::<String>()).collect::<Vec<_>>(), "request_hex": c.phases.iter().map(|p| hex_short(p)).collect::<Vec<_>>(), "cuts": c.cuts, "detail": extra});
     rep.mon("handshakes_run", 1);
     match (&c.expect, &o.result) {
@@ -159,7 +198,7 @@ fn socks5_case(atyp: u8, host: &[u8], port: u16, label: &str, expect: Option<(St
     }
     req.extend_from_slice(host);
     req.extend_from_slice(&port.to_be_bytes());
-    Case { kind: Kind::Socks5, phases: vec![vec![5, 1, 0], req], cut_phase: 1, cuts: vec![], payload: b"PAYLOAD-after-socks".to_vec(), expect, label: label.into() }
+    Case { kind: Kind::Socks5, phases: vec![vec![5, 1, 0], req], cut_phase: 1, cuts: vec![], payload: b"PAYLOAD-after-socks".to_vec(), expect, label: label.into(), early: 0 }
 }
 
 fn http_case(method: &str, target: &str, headers_len: usize, label: &str) -> Case {
@@ -170,7 +209,7 @@ fn http_case(method: &str, target: &str, headers_len: usize, label: &str) -> Cas
     }
     head.push_str("\r\n");
     let kind = if method == "CONNECT" { Kind::Connect } else { Kind::Plain };
-    Case { kind, phases: vec![head.into_bytes()], cut_phase: 0, cuts: vec![], payload: b"PAYLOAD-after-http".to_vec(), expect, label: label.into() }
+    Case { kind, phases: vec![head.into_bytes()], cut_phase: 0, cuts: vec![], payload: b"PAYLOAD-after-http".to_vec(), expect, label: label.into(), early: 0 }
 }
 
 fn grammar() -> Vec<Case> {
@@ -242,10 +281,10 @@ fn socks_cases(rng: &mut Rng) -> Vec<Case> {
     let mut c = socks5_case(1, &[127, 0, 0, 1], 80, "socks5-no-acceptable-method", None);
     c.phases[0] = vec![5, 2, 1, 2]; // GSSAPI and username/password only
     v.push(c);
-    v.push(Case { kind: Kind::Socks5, phases: vec![vec![4, 1, 0, 80, 127, 0, 0, 1, 0]], cut_phase: 0, cuts: vec![], payload: vec![], expect: None, label: "socks4".into() });
-    v.push(Case { kind: Kind::Plain, phases: vec![vec![0x16, 3, 1, 0, 0xa0, 1, 0, 0, 0x9c, 3, 3]], cut_phase: 0, cuts: vec![], payload: rng.bytes(150), expect: None, label: "tls-client-hello".into() });
-    v.push(Case { kind: Kind::Plain, phases: vec![rng.bytes(40)], cut_phase: 0, cuts: vec![], payload: vec![], expect: None, label: "garbage".into() });
-    v.push(Case { kind: Kind::Plain, phases: vec![b"\r\n\r\n".to_vec()], cut_phase: 0, cuts: vec![], payload: vec![], expect: None, label: "empty-lines".into() });
+    v.push(Case { kind: Kind::Socks5, phases: vec![vec![4, 1, 0, 80, 127, 0, 0, 1, 0]], cut_phase: 0, cuts: vec![], payload: vec![], expect: None, label: "socks4".into(), early: 0 });
+    v.push(Case { kind: Kind::Plain, phases: vec![vec![0x16, 3, 1, 0, 0xa0, 1, 0, 0, 0x9c, 3, 3]], cut_phase: 0, cuts: vec![], payload: rng.bytes(150), expect: None, label: "tls-client-hello".into(), early: 0 });
+    v.push(Case { kind: Kind::Plain, phases: vec![rng.bytes(40)], cut_phase: 0, cuts: vec![], payload: vec![], expect: None, label: "garbage".into(), early: 0 });
+    v.push(Case { kind: Kind::Plain, phases: vec![b"\r\n\r\n".to_vec()], cut_phase: 0, cuts: vec![], payload: vec![], expect: None, label: "empty-lines".into(), early: 0 });
     v
 }
 
@@ -282,6 +321,25 @@ pub fn run(a: &Args) -> Report {
         seg.push(x);
     }
     cases.extend(seg);
+    // a client that does not wait for the final reply: its first tunnel bytes arrive together with the handshake
+    let mut early = Vec::new();
+    let mut taken = std::collections::HashMap::new();
+    for c in cases[..whole].iter().filter(|c| c.expect.is_some() && !matches!(c.kind, Kind::Plain)) {
+        let k = format!("{:?}/{}", c.kind, c.label);
+        let n = taken.entry(k).or_insert(0usize);
+        if *n >= if a.thorough { 60 } else { 12 } {
+            continue;
+        }
+        *n += 1;
+        for (e, size) in [(1u8, 18usize), (1, 1500), (1, 5000), (2, 18), (2, 1500)] {
+            let mut x = c.clone();
+            x.early = e;
+            x.payload = rng.bytes(size);
+            early.push(x);
+        }
+    }
+    let n_early = early.len();
+    cases.extend(early);
     let total = cases.len();
     let mut rep = parallel(total, a.threads * 4, |i, rep| {
         thread_local! { static RT: tokio::runtime::Runtime = tokio::runtime::Builder::new_current_thread().enable_all().build().unwrap(); }
@@ -294,7 +352,7 @@ pub fn run(a: &Args) -> Report {
             Ok(Ok(o)) => judge(rep, c, o, seed, i as u64),
         }
     });
-    rep.sample(json!({"grammar": "methods {GET,POST,PUT,OPTIONS,HEAD,CONNECT} x hosts {reg-names 1..63, IPv4, bracketed IPv6} x ports {absent,1,80,8080,65535} x paths {'', '/', '/a/b', '/a:b', '/x://y', '/p/'} x queries {'', '?a=b', '?u=http://h:1/', '?a?b', '?x=/'} (full product) + malformed variants + SOCKS5 (3 address types, unsupported commands/methods/versions)", "whole_requests": whole, "segmented_requests": total - whole, "oracle": "refimpl::http::expected_target (RFC 9112 request-target, RFC 3986 authority) / RFC 1928"}));
+    rep.sample(json!({"grammar": "methods {GET,POST,PUT,OPTIONS,HEAD,CONNECT} x hosts {reg-names 1..63, IPv4, bracketed IPv6} x ports {absent,1,80,8080,65535} x paths {'', '/', '/a/b', '/a:b', '/x://y', '/p/'} x queries {'', '?a=b', '?u=http://h:1/', '?a?b', '?x=/'} (full product) + malformed variants + SOCKS5 (3 address types, unsupported commands/methods/versions)", "whole_requests": whole, "segmented_requests": total - whole - n_early, "early_data_requests": n_early, "oracle": "refimpl::http::expected_target (RFC 9112 request-target, RFC 3986 authority) / RFC 1928"}));
     rep.extra.insert("exhaustive_detail".into(), json!("the request-target grammar product is enumerated completely (whole delivery); every single cut position is enumerated for a sample of requests of each kind"));
     rep
 }
